@@ -1887,3 +1887,124 @@ def np_where(eng, st, args, kw, node):
     _CUR[0] = st
     content = named_array(eng, 'where_%dd_%s' % (nd, '_'.join(t for t, _ in kinds)), operands, vars_, body)
     return eng.mk_arr(st, nd, 'real', sh, content)
+
+
+# ---------------------------------------------------------------- further library models (added for rewrites met in seeded changes)
+@model('builtins.round')
+def m_round(eng, st, args, kw, node):
+    """round(x) with one argument: nearest integer, ties to the EVEN neighbour (Python 3 semantics)."""
+    if len(args) != 1 or kw:
+        raise Unsupported("round with ndigits")
+    v = args[0]
+    if v.k in ('int', 'bool'):
+        return vint(to_int(v))
+    if v.k != 'real':
+        raise Unsupported("round of %r" % (v.k,))
+    used(eng, "round(x): nearest integer, ties to even")
+    x = v.t
+    f = z3.ToInt(x)                     # floor
+    d = x - z3.ToReal(f)
+    half = z3.Q(1, 2)
+    return vint(z3.If(d < half, f, z3.If(d > half, f + 1, z3.If(f % 2 == 0, f, f + 1))))
+
+
+@model('numpy.cumsum')
+def np_cumsum(eng, st, args, kw, node):
+    v = args[0]
+    if kw or len(args) != 1:
+        raise Unsupported("cumsum with axis/dtype")
+    i = z3.Int(fresh_name('i'))
+    if isinstance(v.k, tuple) and v.k[0] == 'list' and v.k[1] in ('int', 'real'):
+        a, n, ek = eng.list_arr(st, v), eng.list_len(st, v), v.k[1]
+    elif isinstance(v.k, tuple) and v.k[0] == 'arr' and v.k[1] == 1 and v.k[2] in ('int', 'real'):
+        a, n, ek = eng.arr_data(st, v), eng.arr_shape(st, v)[0], v.k[2]
+    else:
+        raise Unsupported("cumsum of %r" % (v.k,))
+    used(eng, "np.cumsum(1-D): fresh array of the prefix sums, out[i] = a[0] + ... + a[i]")
+    f = psum(eng, st, a, n) if ek == 'int' else rsum(eng, st, a, n)
+    return eng.mk_arr(st, 1, ek, [n], lam([i], f(a, i + 1)))
+
+
+_prev_asarray = MODELS['numpy.asarray']
+
+
+def np_asarray2(eng, st, args, kw, node):
+    v = args[0]
+    dt = kw.get('dtype') if kw else None
+    int_dtype = dt is None or (set(kw) == {'dtype'} and ((dt.k == 'func' and dt.py[0] == 'named' and getattr(dt.py[1], 'id', None) == 'int') or
+                                                         (dt.k == 'str' and dt.py.split('.')[-1] in ('int64', 'intp'))))
+    if isinstance(v.k, tuple) and v.k[0] == 'list' and v.k[1] == 'int' and int_dtype:
+        used(eng, "np.asarray/np.array(list of int): fresh 1-D integer array with the same elements")
+        return eng.mk_arr(st, 1, 'int', [eng.list_len(st, v)], eng.list_arr(st, v))
+    if isinstance(v.k, tuple) and v.k[0] == 'arr' and not kw:
+        used(eng, "np.asarray(ndarray) returns its argument (no copy)")
+        return v
+    return _prev_asarray(eng, st, args, kw, node)
+
+
+MODELS['numpy.asarray'] = np_asarray2
+MODELS['numpy.array'] = np_asarray2
+
+
+@model('numpy.linalg.cholesky')
+def np_cholesky(eng, st, args, kw, node):
+    """ASSUMED: raises LinAlgError unless the matrix is (numerically) positive definite; otherwise a fresh lower-triangular
+    factor with a strictly positive diagonal, an uninterpreted function of the contents."""
+    v = args[0]
+    if not (isinstance(v.k, tuple) and v.k[0] == 'arr' and v.k[1] == 2):
+        raise Unsupported("cholesky form")
+    used(eng, "np.linalg.cholesky(A): LinAlgError unless A is positive definite; else fresh L = chol_uf(A) with L[i,i] > 0")
+    sh = eng.arr_shape(st, v)
+    spd = eng.uf('is_spd', z3.ArraySort(I, I, R), I, B)
+    ok = spd(eng.arr_data(st, v), sh[0])
+    if not st.spec:
+        if 'LinAlgError' in eng.frame.exc_ok:
+            st.pending_raises.append((z3.Not(ok), 'LinAlgError', len(st.pc)))
+        else:
+            eng.oblige(st, "noexc:LinAlgError@L%d" % node.lineno, 'noexc', ok, node)
+        st.assume(ok)
+    f = eng.uf('chol_uf', z3.ArraySort(I, I, R), I, z3.ArraySort(I, I, R))
+    data = f(eng.arr_data(st, v), sh[0])
+    i = z3.Int(fresh_name('i'))
+    st.assume(z3.ForAll([i], z3.Implies(z3.And(0 <= i, i < sh[0]), z3.Select(data, i, i) > 0), patterns=[z3.Select(data, i, i)]))
+    return eng.mk_arr(st, 2, 'real', [sh[0], sh[1]], data)
+
+
+@model('numpy.diagonal')
+def np_diagonal(eng, st, args, kw, node):
+    v = args[0]
+    if kw or len(args) != 1 or not (isinstance(v.k, tuple) and v.k[0] == 'arr' and v.k[1] == 2):
+        raise Unsupported("diagonal form")
+    used(eng, "np.diagonal(M): the main diagonal, d[i] = M[i,i], length min(shape)")
+    sh = eng.arr_shape(st, v)
+    d = eng.arr_data(st, v)
+    i = z3.Int(fresh_name('i'))
+    n = z3.If(sh[0] <= sh[1], sh[0], sh[1])
+    return eng.mk_arr(st, 1, v.k[2], [n], lam([i], z3.Select(d, i, i)))
+
+
+@model('numpy.prod')
+def np_prod(eng, st, args, kw, node):
+    """ASSUMED, with the IEEE range clause (as for det): the double returned is the real product unless its magnitude is
+    below 2**-1074, in which case 0.0 is returned (underflow).  A product of positive reals is positive over the reals."""
+    v = args[0]
+    if kw or len(args) != 1 or not (isinstance(v.k, tuple) and v.k[0] == 'arr' and v.k[1] == 1 and v.k[2] == 'real'):
+        raise Unsupported("prod form")
+    used(eng, "np.prod(v) = real product, flushed to 0.0 when its magnitude is below 2**-1074 (IEEE underflow)")
+    a, n = eng.arr_data(st, v), eng.arr_shape(st, v)[0]
+    f = eng.uf('prod_uf', z3.ArraySort(I, R), I, R)
+    p = f(a, n)
+    i = z3.Int(fresh_name('i'))
+    st.assume(z3.Implies(z3.ForAll([i], z3.Implies(z3.And(0 <= i, i < n), z3.Select(a, i) > 0)), p > 0))
+    r = z3.Real(fresh_name('fl_prod'))
+    st.assume(r == z3.If(z3.And(p < DENORM_MIN, p > -DENORM_MIN), z3.RealVal(0), p))
+    return vreal(r)
+
+
+@model('numpy.atleast_2d')
+def np_atleast_2d(eng, st, args, kw, node):
+    v = args[0]
+    if kw or len(args) != 1 or not (isinstance(v.k, tuple) and v.k[0] == 'arr' and v.k[1] == 2):
+        raise Unsupported("atleast_2d of %r" % (v.k,))
+    used(eng, "np.atleast_2d(M) returns M itself when M is already 2-D")
+    return v
